@@ -555,14 +555,20 @@ impl Emitter {
                 }
 
                 // Skip comment processing AND `last_token` update for
-                // duplicated / stripped / skipped tokens — several emit
-                // helpers rely on `last_token` pointing at the most recent
-                // non-duplicated token.
-                if duplicated.is_some() || self.build_opt.strip_comments || self.skip_comment {
+                // duplicated tokens — several emit helpers rely on
+                // `last_token` pointing at the most recent non-duplicated
+                // token.
+                if duplicated.is_some() {
                     return;
                 }
 
-                self.process_comment(x, will_push);
+                // Stripped / skipped comments only drop the comments: the
+                // token itself still has to become `last_token`, as it does
+                // in the align pass (which may not run at all when
+                // `vertical_align` is off).
+                if !self.build_opt.strip_comments && !self.skip_comment {
+                    self.process_comment(x, will_push);
+                }
             }
             Mode::Align => {
                 self.aligner.token(x);
